@@ -24,8 +24,9 @@ from concurrent.futures import ThreadPoolExecutor
 import vlib
 
 LANGS = ('html', 'css', 'js', 'json', 'svg', 'xml')
-PRECS = [-1, 0, 1, 17, 1000000]
-POPTS = ['pm1', 'default', 'p1', 'p17', 'p1000000']
+MAXINT = (1 << 63) - 1
+PRECS = [-1, 0, 1, 17, 1000000, MAXINT, MAXINT - 1, 1 << 31, 1 << 62, -MAXINT - 1]
+POPTS = ['pm1', 'default', 'p1', 'p17', 'p1000000', 'p%d' % MAXINT, 'p%d' % (MAXINT - 1), 'p%d' % (1 << 31), 'p%d' % (1 << 62), 'pm%d' % (MAXINT + 1)]
 OPTS = {'html': ['default', 'keep', 'p1', 'pm1+es5'], 'xml': ['default', 'keep'], 'css': POPTS + ['keep'], 'js': POPTS + ['keep+es5'],
         'json': POPTS + ['keep'], 'svg': POPTS + ['keep']}
 
@@ -122,6 +123,16 @@ FIXED = set(FIXED_NOTES)
 LIFTED = FIXED | set(filter(None, os.environ.get('VERIF_C10_LIFT', '').split(',')))       # trial runs against a patched tree
 
 
+# KC: minify.Number computes start+prec; for a precision within a few units of MaxInt the sum overflows to a negative index (panic).
+#     Reached directly and through the Precision option of the css / svg / js / json minifiers.
+def kc_call(api, opts, prec):
+    big = MAXINT - 4096
+    if api in ('Number', 'Decimal'):
+        return prec >= big
+    m = re.search(r'(?:^|\+)p(\d+)', opts)
+    return bool(m) and int(m.group(1)) >= big
+
+
 def excluded(api, tags):
     return [t for t in tags if (t != 'KA' or api == 'Bytes') and t not in LIFTED]
 
@@ -183,6 +194,9 @@ class Cases:
             full = None
             k = (api, lang, opts, prec, file)
         if k in self.seen:
+            return None
+        if not allow_known and 'KC' not in LIFTED and kc_call(api, opts, prec):
+            self.excluded += 1
             return None
         if not allow_known:
             if tags is None:
